@@ -193,12 +193,29 @@ def handle : List String → String
   | ["obj", pairs] =>
     match (decList pairs).mapM parsePair with
     | some ps =>
-      s!"spec={encPairs (objectConstructSpec ps)}\timpl={encPairs (objectConstructImpl ps)}\tkeep={encPairs (objectConstructKeepNull ps)}\tfinding={if noHidden ps then "-" else "C11/object-construct-hidden-null"}"
+      let impl := match objectConstructDuck ps with | .ok l => encPairs l | .error _ => "Eparser"
+      let key := if (objectConstructImpl ps).isEmpty then "C11/object-construct-empty"
+                 else if noHidden ps then "-" else "C11/object-construct-hidden-null"
+      s!"spec={encPairs (objectConstructSpec ps)}\timpl={impl}\tkeep={encPairs (objectConstructKeepNull ps)}\tfinding={key}"
     | none => "bad-op"
+  | ["arr", items] =>
+    match parseJson items with
+    | some (.arr l) =>
+      match arrayLitImpl l.toList with
+      | .native xs => s!"spec=J{encStr (render (.arr l))}\timpl=L{encStr (render (.arr (JList.ofList xs)))}\tfinding=C11/array-literal-native-list"
+      | .err => s!"spec=J{encStr (render (.arr l))}\timpl=Eany\tfinding=C11/array-literal-heterogeneous"
+      | .unsup => "unsupported"
+    | _ => "bad-op"
   | ["flatten", doc, mode] =>
     match parseJson doc with
     | some d =>
       let v : Val := .json d
+      if mode == "index" then
+        -- `f.index`: the position of each element; fakesnow's UNNEST alias only has VALUE (BinderException)
+        match flattenSpec v with
+        | .ok rows => s!"spec=R{",".intercalate ((List.range rows.length).map fun i => s!"I{i}")}\timpl=Ebinder\tfinding=C11/flatten-index"
+        | .error _ => "unsupported"
+      else
       let (spec, impl) := if mode == "text" then (flattenTextSpec v, flattenTextImpl v) else (flattenSpec v, flattenImpl v)
       let key := match d with | .obj _ => "C11/flatten-object" | _ => "-"
       s!"spec={encRows spec}\timpl={encRows impl}\tfinding={key}"
